@@ -96,9 +96,9 @@ class TStep(IntegratorStep):
     def py_stage3(self, dst, t, dt):
         dst.c0[0] = (5.0*dst.c0[0] + 2.0*self.c + 8.0*t + 1600.0*dt) % 1000003.0
 
-    def initialize(self, d_idx, d_s, d_s0):
+    def initialize(self, d_idx, d_s, d_s0, t, dt):
         d_s0[d_idx] = d_s[d_idx]
-        d_s[d_idx] = (3.0*d_s[d_idx] + self.c) % 1000003.0
+        d_s[d_idx] = (3.0*d_s[d_idx] + self.c + 8.0*t + 1600.0*dt) % 1000003.0
 
     def stage1(self, d_idx, d_s, d_au, d_c0, d_x, d_h, t, dt):
         d_s[d_idx] = (5.0*d_s[d_idx] + d_au[d_idx] + d_c0[0] + 8.0*t + 1600.0*dt + self.c) % 1000003.0
